@@ -199,11 +199,19 @@ def search(ctx):
                 multi_det = rng.random() < 0.5
                 det = detector_grid(shape, 0.1, extra_dims={'illumination': labels}) if multi_det else detector_grid(shape, 0.1)
                 pol_one = rng.random() < 0.4
-                pol_arg = pols[labels[0]] if pol_one else xr.concat([to_vector(pols[l]) for l in labels], dim=xr.DataArray(labels, dims='illumination', name='illumination'))
-                wl_arg = xr.DataArray([wl[l] for l in labels], dims=['illumination'], coords={'illumination': labels})
-                info = dict(kind="channels", labels=labels, order=order, per_n=bool(per_n), per_r=bool(per_r), as_array=bool(as_array),
-                            multi_det=bool(multi_det), pol_one=bool(pol_one))
-                ctx.tried("channels", (tuple(labels), per_n, per_r, as_array, multi_det, pol_one, i))
+                # the channel order of the polarisation, of the wavelength and of the detector are independent of each other
+                porder = [str(l) for l in rng.permutation(labels)]
+                worder = [str(l) for l in rng.permutation(labels)]
+                as_dict = multi_det and rng.random() < 0.5     # dictionaries are aligned against the detector's illumination coordinate
+                if as_dict:
+                    pol_arg = pols[labels[0]] if pol_one else {l: pols[l] for l in porder}
+                    wl_arg = {l: wl[l] for l in worder}
+                else:
+                    pol_arg = pols[labels[0]] if pol_one else xr.concat([to_vector(pols[l]) for l in porder], dim=xr.DataArray(porder, dims='illumination', name='illumination'))
+                    wl_arg = xr.DataArray([wl[l] for l in worder], dims=['illumination'], coords={'illumination': worder})
+                info = dict(kind="channels", labels=labels, order=[str(l) for l in order], pol_order=porder, wavelen_order=worder, as_dict=bool(as_dict),
+                            per_n=bool(per_n), per_r=bool(per_r), as_array=bool(as_array), multi_det=bool(multi_det), pol_one=bool(pol_one))
+                ctx.tried("channels", (tuple(labels), tuple(porder), tuple(worder), as_dict, per_n, per_r, as_array, multi_det, pol_one, i))
                 hm = calc_holo(det, sc, medium_index=1.33, illum_wavelen=wl_arg, illum_polarization=pol_arg, theory=Mie())
                 d1 = detector_grid(shape, 0.1)
                 for l in labels:
